@@ -6,9 +6,11 @@
    compute_candidates_covers_weak: for EVERY option combination and EVERY configuration value (0 included) a
    COk result consists of states of the node space covering every attractor of the node, under
    (a) the tape contracts (each solver answer is a duplicate-free prefix, of the length its limit allows, of
-   the reduced fixed points; walks visit reachable states), (b) reduction_hyp: for every assignment of the NFVS
-   the reduced fixed points hit every attractor (a signed-graph fact that is NOT proved; it is checked on every
-   recorded instance by nfvs_reduction_ok_b, proved equivalent), and (c) for the empty-NFVS shortcut, that every
+   the reduced fixed points; walks visit reachable states), (b) the retained variables hit every negative cycle of
+   the node's semantic interaction graph (Signed.no_neg_walk; nfvs_reduction PROVES from it that for every
+   assignment of them the reduced fixed points hit every attractor -- isotone source blocks, polarity switching,
+   cascade over strongly connected components; the executable test no_neg_walk_b, proved exact, is run on every
+   NFVS the code obtains from biodivine_aeon), and (c) for the empty-NFVS shortcut, that every
    fixed point of the node lies in an avoided space (true for expanded nodes of a faithful diagram; the formal
    counterexample without it is compute_candidates_covers_counterexample).
 
@@ -18,7 +20,21 @@ From Coq Require Import List Bool Arith NArith Lia Relations Permutation.
 Import ListNotations.
 From BB Require Import BN Brute SpaceFacts TrapFacts PercolateFacts AttractorFacts Diagram Invariants Checks Filter
   Strict PetriNet Control Meta FilterFacts PetriNetFacts TrappistFacts DiagramStruct DiagramSem1 DiagramCache
-  DiagramDepth DiagramComplete Termination ControlFacts MetaFacts Candidates StrictFacts MinExpandFacts CandidatesFacts SymbolicTest SymbolicTestFacts.
+  DiagramDepth DiagramComplete Termination ControlFacts MetaFacts Candidates StrictFacts MinExpandFacts CandidatesFacts SymbolicTest SymbolicTestFacts Signed ReductionFacts ControlFacts2 Main.
+
+(* the end-to-end statement *)
+Theorem C08_pipeline_covers_given_nfvs : forall (fuel : nat) (N : net) (S : space) (avoid : list space) (nfvs : list nat) (Rinit : retained) (cfg : ccfg) (greedy simulation : bool) (tape : list (list state)) (stp : simtape) (res : list state) (log : list call), trap_space N S -> (forall a : space, In a avoid -> trap_space N a) -> NoDup nfvs -> (forall v : nat, In v nfvs -> v < nvars N) -> retained_total nfvs Rinit -> no_neg_walk N S nfvs -> (is_full S = false -> nfvs = [] -> avoid <> [] -> fixed_points_avoided N S avoid) -> compute_candidates fuel N S avoid nfvs Rinit cfg greedy simulation tape stp = (COk res, log) -> tape_ok N S avoid log tape -> walks_ok fuel N S avoid nfvs Rinit cfg greedy tape stp -> (forall c : state, In c res -> in_space c S = true) /\ covers N S avoid res.
+Proof. exact candidates_cover_nfvs. Qed.
+
+(* negative feedback vertex set => reduced fixed points hit every attractor *)
+Theorem C08_nfvs_reduction : forall (N : net) (S : space) (avoid : list space) (nfvs : list nat), trap_space N S -> (forall a : space, In a avoid -> trap_space N a) -> NoDup nfvs -> (forall v : nat, In v nfvs -> v < nvars N) -> no_neg_walk N S nfvs -> reduction_hyp N S avoid nfvs.
+Proof. exact nfvs_reduction. Qed.
+
+Theorem C08_no_neg_walk_test_exact : forall (N : net) (S : list (option bool)) (U : list nat), length S = nvars N -> no_neg_walk_b N S U = true <-> no_neg_walk N S U.
+Proof. exact no_neg_walk_b_spec. Qed.
+
+Theorem C08_graph_test_implies_brute_force_test : forall (N : net) (S : space) (avoid : list space) (nfvs : list nat), trap_space N S -> (forall a : space, In a avoid -> trap_space N a) -> NoDup nfvs -> (forall v : nat, In v nfvs -> v < nvars N) -> no_neg_walk_b N S nfvs = true -> nfvs_reduction_ok_b N S avoid nfvs = true.
+Proof. exact no_neg_walk_b_reduction. Qed.
 
 Theorem C08_pipeline_covers : forall (fuel : nat) (N : net) (S : space) (avoid : list space) (nfvs : list nat) (Rinit : retained) (cfg : ccfg) (greedy simulation : bool) (tape : list (list state)) (stp : simtape) (res : list state) (log : list call), trap_space N S -> (forall a : space, In a avoid -> trap_space N a) -> NoDup nfvs -> (forall v : nat, In v nfvs -> v < nvars N) -> retained_total nfvs Rinit -> reduction_hyp N S avoid nfvs -> (is_full S = false -> nfvs = [] -> avoid <> [] -> fixed_points_avoided N S avoid) -> compute_candidates fuel N S avoid nfvs Rinit cfg greedy simulation tape stp = (COk res, log) -> tape_ok N S avoid log tape -> walks_ok fuel N S avoid nfvs Rinit cfg greedy tape stp -> (forall c : state, In c res -> in_space c S = true) /\ covers N S avoid res.
 Proof. exact compute_candidates_covers_weak. Qed.
@@ -70,6 +86,10 @@ Proof. exact node_attractors_b_complete. Qed.
 Theorem C08_empty_list_means_no_attractor : forall (N : net) (P : state -> Prop) (s : state), closed N P -> P s -> wf_state N s -> exists t : state, P t /\ in_attractor N t.
 Proof. exact closed_contains_attractor. Qed.
 
+Print Assumptions C08_pipeline_covers_given_nfvs.
+Print Assumptions C08_nfvs_reduction.
+Print Assumptions C08_no_neg_walk_test_exact.
+Print Assumptions C08_graph_test_implies_brute_force_test.
 Print Assumptions C08_pipeline_covers.
 Print Assumptions C08_pipeline_covers_nonempty_nfvs.
 Print Assumptions C08_pipeline_complete.
